@@ -86,6 +86,12 @@ pub fn directed() -> Vec<(String, &'static str, Vec<Op>)> {
             Op::Update { table: "T".into(), sets: vec![("V".into(), V::s(""))], cond: None },
         ],
     ));
+    // the widest table the library accepts
+    {
+        let wide: Vec<ColDef> = (0..32).map(|i| if i == 0 { ColDef::new("K", CT::Int16).key() } else if i % 2 == 0 { ColDef::new(&format!("S{}", i), CT::Str(0)).nullable() } else { ColDef::new(&format!("N{}", i), CT::Int32).nullable() }).collect();
+        let row: Vec<V> = (0..32).map(|i| if i == 0 { V::Int(1) } else if i % 2 == 0 { V::Str(format!("t0x{}w", i)) } else { V::Int(i) }).collect();
+        out.push(("32-columns".into(), "Installer", vec![create("Wide", &wide), ins("Wide", vec![row])]));
+    }
     // one string shared by cells of two tables and a catalog table
     out.push((
         "shared-string-two-tables-and-catalog".into(),
